@@ -25,4 +25,5 @@ Emit == DoEmit => PrintT(ToJson([f |-> "leaf", m |-> m,
 Spec == GenSpec
 cScalars == {VS("x"), VS("y")}
 cConts == {EmptyMap, EmptyList}
+cScalarsNil == {VS("x"), VNil}        \* a null member is a terminal value like any other (listed once, its path resolves to exactly [nil])
 =============================================================================
